@@ -33,6 +33,9 @@ type World struct {
 	Alt     DealerH // same dealer key, same verifiers, different secret
 	AltDeal []*PDeal
 	SID     []byte
+
+	logH     kyber.Scalar
+	logHDone bool
 }
 
 // SeedSuite returns an Ed25519 suite whose random stream is derived from the labels.
@@ -85,9 +88,9 @@ func (w *World) one() kyber.Scalar { return w.S.Scalar().One() }
 // DealKinds lists the abstract deal kinds the harness can concretise for a variant.
 func DealKinds(variant string) []string {
 	k := []string{"good", "badshare", "badcommit", "tlow", "thigh", "wrongindex", "indexoor", "wrongrecipient",
-		"forgedsig", "noshare", "nocommits", "garbage"}
+		"forgedsig", "sigreuse", "noshare", "nocommits", "garbage"}
 	if variant == "rabin" {
-		k = append(k, "badrnd", "rndindex")
+		k = append(k, "badrnd", "rndindex", "equivocate")
 	}
 	return k
 }
@@ -104,6 +107,14 @@ func (w *World) corrupt(kind string, to int) (*PDeal, error) {
 			return nil, ErrUnwitnessed
 		}
 		d.RV = d.RV.Add(d.RV, w.one())
+	case "equivocate":
+		// opens the same commitment f*G + g*H to another share, possible only with a known h = log_G(H)
+		h, ok := w.knownLogH()
+		if !ok || d.RV == nil {
+			return nil, ErrUnwitnessed
+		}
+		d.V = d.V.Add(d.V, w.one())
+		d.RV = d.RV.Sub(d.RV, w.S.Scalar().Inv(h))
 	case "rndindex":
 		if d.RV == nil {
 			return nil, ErrUnwitnessed
@@ -152,6 +163,23 @@ func (w *World) EncDeal(kind string, to int) (*Enc, error) {
 		return w.ownEnvelope([]byte{0xff, 0x07, 0x13, 0x00, 0x01, 0x9a, 0x9a}, to)
 	case "wrongrecipient":
 		return w.Dealer.EncryptedDeal((to + 1) % w.N)
+	case "sigreuse":
+		// attacker-made envelope around the honest plaintext (fresh ephemeral key) + the dealer's genuine
+		// signature of the ephemeral key of another envelope
+		plain, err := w.A.MarshalDeal(w.Honest[to])
+		if err != nil {
+			return nil, err
+		}
+		mine, err := w.ownEnvelope(plain, to)
+		if err != nil {
+			return nil, err
+		}
+		genuine, err := w.Dealer.EncryptedDeal(to)
+		if err != nil {
+			return nil, err
+		}
+		mine.Sig = genuine.Sig
+		return mine, nil
 	}
 	d, err := w.corrupt(kind, to)
 	if err != nil {
@@ -171,6 +199,48 @@ func (w *World) EncDeal(kind string, to int) (*Enc, error) {
 		e.Sig = sig
 	}
 	return e, nil
+}
+
+// knownLogH tries to find h with H = h*G for the second generator H of the
+// rabin variant (H is recovered from an honest deal: C(i) = f_i*G + g_i*H).
+// The candidates are the natural ways of deriving a scalar from the seed the
+// package hashes to obtain H. On a sound tree none matches (H comes from
+// Point.Pick) and the attack family is unwitnessed.
+func (w *World) knownLogH() (kyber.Scalar, bool) {
+	if w.logHDone {
+		return w.logH, w.logH != nil
+	}
+	w.logHDone = true
+	d := w.Honest[0]
+	if d.RV == nil || d.RV.Equal(w.S.Scalar().Zero()) {
+		return nil, false
+	}
+	ci := share.NewPubPoly(w.S, nil, d.Commits).Eval(d.I).V
+	H := w.S.Point().Sub(ci, w.S.Point().Mul(d.V, nil))
+	H.Mul(w.S.Scalar().Inv(d.RV), H)
+	var seed []byte
+	for _, v := range w.VPub {
+		b, _ := v.MarshalBinary()
+		seed = append(seed, b...)
+	}
+	hs := w.S.Hash()
+	_, _ = hs.Write(seed)
+	digest := hs.Sum(nil)
+	db, _ := w.DPub.MarshalBinary()
+	var cands []kyber.Scalar
+	for _, sd := range [][]byte{seed, digest, append(append([]byte(nil), db...), seed...)} {
+		cands = append(cands, w.S.Scalar().Pick(w.S.XOF(sd)), w.S.Scalar().SetBytes(sd))
+		h2 := w.S.Hash()
+		_, _ = h2.Write(sd)
+		cands = append(cands, w.S.Scalar().SetBytes(h2.Sum(nil)))
+	}
+	for _, h := range cands {
+		if !h.Equal(w.S.Scalar().Zero()) && w.S.Point().Mul(h, nil).Equal(H) {
+			w.logH = h
+			return h, true
+		}
+	}
+	return nil, false
 }
 
 func pbBytes(field int, b []byte) []byte {
@@ -247,7 +317,9 @@ func (w *World) ownEnvelope(plain []byte, to int) (*Enc, error) {
 
 // ---------------------------------------------------------------- responses
 
-func RespClasses() []string { return []string{"valid", "forged", "wrongsid", "oor", "unsigned"} }
+func RespClasses() []string {
+	return []string{"valid", "forged", "wrongsid", "oor", "unsigned", "relabel", "reindex", "resession"}
+}
 
 // MakeResp concretises a response class for verifier i.
 func (w *World) MakeResp(cls string, i int, approved bool) (*Resp, error) {
@@ -264,6 +336,25 @@ func (w *World) MakeResp(cls string, i int, approved bool) (*Resp, error) {
 		key = w.Other
 	case "unsigned":
 		return r, nil
+	case "relabel", "reindex", "resession":
+		// a genuine signature, then one signed field is changed
+		signed := r.Clone()
+		switch cls {
+		case "relabel":
+			signed.Approved = !approved
+		case "reindex":
+			k := (i + 1) % w.N
+			signed.Index = uint32(k)
+			key = w.VLong[k]
+		case "resession":
+			signed.SID = append([]byte(nil), w.Alt.SessionID()...)
+		}
+		sig, err := schnorr.Sign(w.S, key, w.A.RespHash(w.S, signed))
+		if err != nil {
+			return nil, err
+		}
+		r.Sig = sig
+		return r, nil
 	default:
 		return nil, fmt.Errorf("unknown response class %q", cls)
 	}
@@ -279,7 +370,7 @@ func (w *World) MakeResp(cls string, i int, approved bool) (*Resp, error) {
 
 func JustClasses() []string {
 	return []string{"correct", "wrongshare", "otherindex", "altcommit", "forgedcorrect", "unsignedcorrect",
-		"unsignedother", "unsignedwrong", "wrongsid", "oor"}
+		"unsignedother", "unsignedwrong", "wrongsid", "oor", "resigother", "resigindex"}
 }
 
 // MakeJust concretises a justification class for the complaint of verifier i.
@@ -318,6 +409,19 @@ func (w *World) MakeJust(cls string, i int) (*Just, error) {
 		j.Deal = w.AltDeal[i%w.N].Clone()
 	case "oor":
 		j.Index = uint32(w.N + 2)
+	case "resigother", "resigindex":
+		// the dealer's genuine signature of a correct justification, then a signed field is changed
+		src := &Just{SID: j.SID, Index: uint32(i), Deal: w.Honest[i%w.N].Clone()}
+		if cls == "resigindex" { // signed for verifier k (with k's deal), index rewritten to i
+			src = &Just{SID: j.SID, Index: uint32(k), Deal: w.Honest[k].Clone()}
+		}
+		sig, err := schnorr.Sign(w.S, w.DLong, w.A.JustHash(w.S, src))
+		if err != nil {
+			return nil, err
+		}
+		j.Deal = w.Honest[k].Clone()
+		j.Sig = sig
+		return j, nil
 	default:
 		return nil, fmt.Errorf("unknown justification class %q", cls)
 	}
